@@ -17,7 +17,8 @@ RULE = ("recursive JSON-like values (dict with str keys - Python mode also int k
         "length is forced into 180..220 at nesting offsets 0..14, simple lists whose lines cross the 150-char wrap "
         "limit with element sizes 1..170, one over-long element, dicts mixing simple and compound values. "
         "Non-trivial = the value contains a simple container whose one-line length + offset lies in 190..210, or a "
-        "simple list rendered over several lines; distinct by (mode, value) hash.")
+        "simple list rendered over several lines; distinct by (mode, value) hash."
+        " Also: the result object observed (repr, len, ==, +, slice, format ...) before its text is taken; both results requested before either is rendered.")
 ASSUMPTIONS = [
     "NaN / +-inf are excluded (no JSON form; NaN != NaN)",
     "strings contain no '\"', backslash, control (Cc), surrogate, or line/paragraph separator characters",
